@@ -156,7 +156,48 @@ def profile(seg_spec, dt):
     raise ValueError(kind)
 
 
-def run_impl(case):
+class _MartSolver:
+    """stands for the NonMarkovianMCSolver seen by InfluenceMartingale."""
+
+    def __init__(self, case, tabs):
+        self.case, self.tabs = case, tabs
+
+    def rate(self, t, i):
+        v = self.case["rates"][int(i) % len(self.case["rates"])] * (1.0 + t / 4)
+        self.tabs["rate"][(float(t), int(i))] = v
+        return np.float64(v)       # nm_solver.rate returns np.real(...)
+
+    def rate_shift(self, t):
+        v = self.case["shift"] * (1.0 + t / 8)
+        self.tabs["shift"][float(t)] = v
+        return v
+
+
+def _mart_proxies(case, tabs, real_np):
+    class _Integrate:
+        @staticmethod
+        def quad(f, t1, t2, limit=None, full_output=False, **kw):
+            v = case["c"] * (t2 - t1) + case["d"] * (t2 * t2 - t1 * t1)
+            tabs["integ"][(float(t1), float(t2))] = v
+            return (v, 0.0, {"neval": 21})
+
+    class _Scipy:
+        integrate = _Integrate
+
+    class _Np:
+        def exp(self, x):
+            with real_np.errstate(all="ignore"):
+                v = float(real_np.exp(x))
+            tabs["exp"][float(x)] = v
+            return v
+
+        def __getattr__(self, name):
+            return getattr(real_np, name)
+
+    return _Np(), _Scipy
+
+
+def run_impl(case, nmcase=None):
     """Drive the real MCIntegrator with scripted parts; record oracle tables
     and the trace."""
     import qutip
@@ -290,7 +331,18 @@ def run_impl(case):
 
     opts = dict(case["opts"])
     integ = ScriptedIntegrator()
-    mci = mcs.MCIntegrator(integ, FakeSystem(), opts)
+    nmtabs = None
+    if nmcase is None:
+        mci = mcs.MCIntegrator(integ, FakeSystem(), opts)
+    else:
+        # NmMCIntegrator around the same scripted parts, with a real
+        # InfluenceMartingale around a scripted solver / quadrature / exp
+        nmod = sys.modules["qutip.solver.nm_mcsolve"]
+        nmtabs = {"integ": {}, "exp": {}, "rate": {}, "shift": {}}
+        nm_real = (nmod.np, nmod.scipy)
+        nmod.np, nmod.scipy = _mart_proxies(nmcase, nmtabs, nmod.np)
+        im = nmod.InfluenceMartingale(_MartSolver(nmcase, nmtabs), nmcase["a"], 100)
+        mci = nmod.NmMCIntegrator(integ, FakeSystem(), opts, **{"__martingale": im})
     real_prob, real_norm = mci._prob_func, mci._norm_func
 
     def prob(state):
@@ -341,8 +393,11 @@ def run_impl(case):
     else:
         psi0 = _data.Dense(np.array([[0.6], [0.8j]], dtype=complex))
     tl = case["tlist"]
+    nm_out = None
     try:
         with np.errstate(all="ignore"):
+            if nmcase is not None:
+                im.initialize(tl[0], cache=list(tl))
             mci.set_state(tl[0], psi0, ScriptedGenerator(case["rnd"]),
                           no_jump=case["no_jump"],
                           jump_prob_floor=case["floor"])
@@ -359,8 +414,21 @@ def run_impl(case):
             except IndexError as e:
                 status = 3
                 err = "IndexError " + str(e)[:60]
+        if nmcase is not None:
+            with np.errstate(all="ignore"):
+                tr = []
+                for t in tl:
+                    try:
+                        tr.append(fkey(float(im.value(t))))
+                    except RuntimeError:
+                        tr.append(None)
+            nm_out = {"trace": tr,
+                      "disc": [(fkey(t), fkey(f)) for t, f in (im._discrete_martingale or [])],
+                      "tabs": nmtabs}
     finally:
         mcs.np = real_np
+        if nmcase is not None:
+            nmod.np, nmod.scipy = nm_real
     cols = [(float(t), int(w)) for t, w in mci.collapses]
     # sets: (time given, source state time, channel or nch)
     sets = []
@@ -377,7 +445,7 @@ def run_impl(case):
             "target": float(mci.target_norm), "cur": integ.cur,
             "illegal": trace["illegal"], "tabs": tabs,
             "state_norm_dev": max(trace["validation"] + [0.0]),
-            "ret_norm_dev": ret_norm_dev, "finds": finds}
+            "ret_norm_dev": ret_norm_dev, "finds": finds, "nm": nm_out}
 
 
 # ------------------------------------------------------------------- model
@@ -1426,24 +1494,36 @@ def run(ctx):
         "np.exp as oracles (assumed: quadrature additive over adjacent intervals, exp(x+y)=exp x exp y, "
         "exp 0 = 1); the completion operator's construction (eigendecomposition, sqrtm) and the "
         "trace-weighted averages of NmmcResult are covered by the implementation-level oracle only",
+        "NmMCIntegrator (set_state / _do_collapse overrides) and _run_one_traj's trace are modelled in "
+        "Model/C16_nmint.v on top of the two models and tied by bit-exact correspondence around the same "
+        "scripted parts; _check_completeness is regenerated by tools/tx_c16_nmc.py, with sqrtm (Hermitian "
+        "square root of its argument) and the largest eigenvalue as oracles; the mcstep-contract theorems "
+        "are about Model/C11_zvode.v (adams/bdf), tied by exact trace correspondence on search-pattern "
+        "call histories of the real integrators; dop853, lsoda and the Verner integrators are covered by "
+        "the mcstep contract test only",
         "_InitialConditions is modelled over exact rational weights (Model/C16_mix.v); np.ceil and the "
         "float ratio ordering are exact for the dyadic weights of the correspondence",
     ]
-    props = ["Props/C16.v", "Props/C16_nm.v", "Props/C16_mix.v"]
-    targets = ["Props/C16.vo", "Props/C16_nm.vo", "Props/C16_mix.vo"]
+    props = ["Props/C16.v", "Props/C16_nm.v", "Props/C16_mix.v", "Props/C16_nmint.v",
+             "Props/C16_mcstep.v"]
+    targets = ["Props/C16.vo", "Props/C16_nm.vo", "Props/C16_mix.vo", "Props/C16_nmint.vo",
+               "Props/C16_mcstep.vo"]
     gen_ok = True
     try:
         import tx_c16_rhs
+        import tx_c16_nmc
         info = tx_c16_rhs.generate()
-        ctx.sample({"generated_rhs": info})
-        props += ["Props/C16_gen.v", "Props/C16_nm_gen.v"]
-        targets += ["Gen/C16_rhs.vo", "Props/C16_gen.vo", "Props/C16_nm_gen.vo"]
+        info2 = tx_c16_nmc.generate()
+        ctx.sample({"generated_rhs": info, "generated_check_completeness": info2})
+        props += ["Props/C16_gen.v", "Props/C16_nm_gen.v", "Props/C16_nm_complete.v"]
+        targets += ["Gen/C16_rhs.vo", "Gen/C16_nm_complete.vo", "Props/C16_gen.vo",
+                    "Props/C16_nm_gen.vo", "Props/C16_nm_complete.vo"]
     except ImportError:
         gen_ok = False
     except Exception as e:      # translator failed closed
         gen_ok = False
         ctx.violation("tx:mcsolve.MCSolver.__init__", "translator-failed-closed",
-                      "MCSolver.__init__ is outside the translator's subset: %s" % str(e)[:200],
+                      "MCSolver.__init__ / _check_completeness is outside the translators' subset: %s" % str(e)[:200],
                       {"error": str(e)[:2000]}, found_input=False)
 
     def search(failed, log):
@@ -1491,7 +1571,9 @@ def run(ctx):
     # ---- InfluenceMartingale and _InitialConditions: exact correspondence
     compare_martingale(ctx, 150 if ctx.quick else 1500, rng)
     compare_mixed(ctx, 200 if ctx.quick else 2000, rng)
-    ctx.log("martingale and mixed-state correspondence done")
+    compare_nmint(ctx, 60 if ctx.quick else 500, rng)
+    compare_zvode_pattern(ctx, 25 if ctx.quick else 250, rng)
+    ctx.log("martingale, mixed-state, NmMCIntegrator and zvode-pattern correspondence done")
 
     # ---- the former last-try defect (norm_steps=1) on the real solver: must not raise
     msg = witness_real_norm_steps()
@@ -1712,6 +1794,21 @@ def replay(ctx, payload):
             ctx.violation(payload["site"], "model-differs:" + keys[0],
                           "InfluenceMartingale and the Coq model disagree on %s" % keys,
                           {"kind": "mart", "case": c})
+    elif kind == "nmint":
+        c, m = d["case"], d["nmcase"]
+        r = run_impl(c, m)
+        v = vlib.coq_eval_values("replay_C16_nmint", HEADER_NMINT, [coq_nmint_expr(c, m, r)])[0]
+        status, rets, cols, disc, raised, tr = parse_val(v)
+        model = ([(fkey(t), fkey(f)) for t, f in disc], [None if x is None else fkey(x[1]) for x in tr])
+        if raised or model != (r["nm"]["disc"], r["nm"]["trace"]):
+            ctx.violation(payload["site"], payload["signature"],
+                          "NmMCIntegrator/InfluenceMartingale and the Coq model disagree",
+                          {"kind": "nmint", "case": c, "nmcase": m})
+    elif kind == "zvode-search":
+        import c11
+        views, oracle, bad = c11.run_zvode_impl(dict(d["case"]))
+        for b in bad:
+            ctx.violation(payload["site"], b.split(":")[0], b, d)
     elif kind == "mix":
         c = d["case"]
         r = run_mix_impl(c)
@@ -2034,45 +2131,11 @@ def run_mart_impl(case):
     import qutip                       # noqa
     nm = sys.modules["qutip.solver.nm_mcsolve"]
     tabs = {"integ": {}, "exp": {}, "rate": {}, "shift": {}}
-
-    class FakeSolver:
-        def rate(self, t, i):
-            v = case["rates"][i] * (1.0 + t / 4)
-            tabs["rate"][(float(t), i)] = v
-            return np.float64(v)       # nm_solver.rate returns np.real(...)
-
-        def rate_shift(self, t):
-            v = case["shift"] * (1.0 + t / 8)
-            tabs["shift"][float(t)] = v
-            return v
-
-    class _Integrate:
-        @staticmethod
-        def quad(f, t1, t2, limit=None, full_output=False, **kw):
-            v = case["c"] * (t2 - t1) + case["d"] * (t2 * t2 - t1 * t1)
-            tabs["integ"][(float(t1), float(t2))] = v
-            return (v, 0.0, {"neval": 21})
-
-    class _Scipy:
-        integrate = _Integrate
-
-    class _Np:
-        def __init__(self, real):
-            self._real = real
-
-        def exp(self, x):
-            v = float(self._real.exp(x))
-            tabs["exp"][float(x)] = v
-            return v
-
-        def __getattr__(self, name):
-            return getattr(self._real, name)
-
     real_np, real_sp = nm.np, nm.scipy
-    nm.np, nm.scipy = _Np(real_np), _Scipy
+    nm.np, nm.scipy = _mart_proxies(case, tabs, real_np)
     outs = []
     try:
-        im = nm.InfluenceMartingale(FakeSolver(), case["a"], 100)
+        im = nm.InfluenceMartingale(_MartSolver(case, tabs), case["a"], 100)
         np.seterr(all="ignore")
         for op in case["ops"]:
             try:
@@ -2276,3 +2339,169 @@ def compare_mixed(ctx, n, rng):
                               "_InitialConditions and the Coq model disagree",
                               {"kind": "mix", "case": c, "impl": impl, "model": model})
     ctx.sample({"mixed_case": cases[-1], "impl": impls[-1]})
+
+
+# ===================================================================
+# NmMCIntegrator + InfluenceMartingale composed: correspondence with
+# Model/C16_nmint.v
+# ===================================================================
+HEADER_NMINT = ("From Coq Require Import List Bool Arith ZArith Floats.\n"
+                "Import ListNotations.\nFrom QV Require Import Model.C16 Model.C16_nm Model.C16_nmint.\n"
+                "Local Open Scope nat_scope.\n")
+
+
+def coq_nmint_expr(case, nmc, r):
+    def ent(k, v):
+        return "((%s, %s, %s, %s), %s)" % (cnat(k[0]), cf(k[1]), cf(k[2]), cnat(k[3]), cf(v))
+    o = case["opts"]
+    t = r["nm"]["tabs"]
+    ti = [ent((0, a, b, 0), v) for (a, b), v in t["integ"].items()]
+    te = [ent((0, x, 0.0, 0), v) for x, v in t["exp"].items()]
+    tr = [ent((0, tt, 0.0, i), v) for (tt, i), v in t["rate"].items()]
+    ts = [ent((0, tt, 0.0, 0), v) for tt, v in t["shift"].items()]
+    return ("f_nm_observe (mkOpts FN %s %s %s %s) %s %s %s %s %s %s %s %s %s %s %s %s" % (
+        cnat(o["norm_steps"]), cf(o["norm_t_tol"]), cf(o["norm_tol"]), cf(o["mc_corr_eps"]),
+        coq_tabs(r["tabs"], case["rnd"]), cnat(len(case["chan"])), cnat(case.get("fuel", 400)),
+        cf(case["tlist"][0]), clist(case["tlist"][1:], cf), cbool(case["no_jump"]), cf(case["floor"]),
+        cf(nmc["a"]), clist(ti), clist(te), clist(tr), clist(ts)))
+
+
+def compare_nmint(ctx, n, rng):
+    cases = []
+    while len(cases) < n:
+        c = gen_case(rng, malformed=False)
+        c["opts"]["norm_steps"] = max(c["opts"]["norm_steps"], 5)
+        cases.append((c, gen_mart_case(rng)))
+    impls = [run_impl(c, m) for c, m in cases]
+    try:
+        vals = vlib.coq_eval_values("cases_C16_nmint", HEADER_NMINT,
+                                    [coq_nmint_expr(c, m, r) for (c, m), r in zip(cases, impls)],
+                                    chunk=40)
+    except RuntimeError as e:
+        ctx.violation("corr:C16:nmint-model-eval", "coqc", "NmMCIntegrator model evaluation failed",
+                      {"log": str(e)[-2000:]}, found_input=False)
+        return
+    mism = 0
+    for (c, m), r, v in zip(cases, impls, vals):
+        status, rets, cols, disc, raised, tr = parse_val(v)
+        model = {"status": int(status), "rets": [fkey(x) for x in rets],
+                 "cols": [(fkey(t), int(k)) for t, k in cols],
+                 "disc": [(fkey(t), fkey(f)) for t, f in disc],
+                 "trace": [None if x is None else fkey(x[1]) for x in tr]}
+        impl = {"status": r["status"], "rets": [fkey(x) for x in r["rets"]],
+                "cols": [(fkey(t), k) for t, k in r["cols"]],
+                "disc": r["nm"]["disc"], "trace": r["nm"]["trace"]}
+        ctx.cov["traces_validated_against_impl"] += 1
+        ctx.count_case(("nmint", json.dumps([c, m], sort_keys=True)), nontrivial=len(r["cols"]) > 0)
+        # the property on the implementation's own record: one martingale
+        # factor per recorded collapse, in order, at the collapse times
+        if [t for t, _ in impl["disc"]] != [t for t, _ in impl["cols"]]:
+            ctx.violation("nm_mcsolve.NmMCIntegrator._do_collapse", "martingale-record-out-of-sync",
+                          "the martingale recorded collapses at %r, the trajectory at %r"
+                          % (impl["disc"], impl["cols"]), {"kind": "nmint", "case": c, "nmcase": m})
+        if raised or model != impl:
+            mism += 1
+            if mism <= 3:
+                keys = [k for k in impl if impl[k] != model[k]] or ["raised"]
+                ctx.violation("corr:nm_mcsolve.NmMCIntegrator", "model-differs:" + keys[0],
+                              "NmMCIntegrator/InfluenceMartingale and the Coq model disagree on %s" % keys,
+                              {"kind": "nmint", "case": c, "nmcase": m,
+                               "impl": {k: impl[k] for k in keys if k in impl},
+                               "model": {k: model[k] for k in keys if k in model}})
+    ctx.sample({"nmint_case": [cases[-1][0]["opts"], cases[-1][1]["rates"]],
+                "collapses": impls[-1]["cols"][:4], "trace": impls[-1]["nm"]["trace"]})
+
+
+# ===================================================================
+# the search pattern on the real zvode integrators vs Model/C11_zvode.v
+# (the model the mcstep-contract theorems of Props/C16_mcstep.v are about)
+# ===================================================================
+def gen_zvode_search_case(rng):
+    ops = [["set", rng.randint(-8, 24) / 8.0]]
+    for _ in range(rng.randint(1, 4)):
+        ops.append(["rel", "beyond", rng.choice([0.02, 0.25, 1.0, 3.0])])
+        for _ in range(rng.randint(0, 6)):
+            ops.append(["rel", "in", rng.choice([0.125, 0.25, 0.5, 0.75, 0.875, 1.0])])
+        if rng.random() < 0.4:
+            ops.append(["rel", "same", 0])
+        if rng.random() < 0.6:
+            ops.append(["rel", "in", rng.choice([0.25, 0.5, 0.75])])
+            # restart where the integrator stands (as after a collapse)
+            ops.append(["set_here"])
+        else:
+            ops.append(["rel", "front", 0])
+    return {"method": rng.choice(["adams", "bdf"]), "ops": ops}
+
+
+def compare_zvode_pattern(ctx, n, rng):
+    from fractions import Fraction
+    import c11
+    cases, runs, exprs, scs = [], [], [], []
+    for _ in range(n):
+        c = gen_zvode_search_case(rng)
+        # resolve "set_here" lazily: run_zvode_impl only knows set/mc/rel, so
+        # replace it by a relative request followed by a set at that time
+        ops = []
+        for op in c["ops"]:
+            if op[0] == "set_here":
+                ops.append(["rel", "same", 0])
+                ops.append(["set_same"])
+            else:
+                ops.append(op)
+        # two passes: the first finds the times, the second replays them
+        probe = {"method": c["method"], "ops": [o for o in ops if o[0] != "set_same"]}
+        views, _, _ = c11.run_zvode_impl(probe)
+        probe.pop("_model_t", None)
+        concrete, vi = [], 0
+        for op in ops:
+            if op[0] == "set_same":
+                concrete.append(["set", float(views[vi - 1][1])])
+            else:
+                concrete.append(list(probe["ops"][vi]))
+                vi += 1
+        case = {"method": c["method"], "ops": concrete}
+        views, oracle, bad = c11.run_zvode_impl(case)
+        mts = case.pop("_model_t")
+        vals_ = [op[1] for op in case["ops"]] + list(oracle) + list(mts)
+        for v in views:
+            vals_ += [v[1], v[3], v[4], v[5]]
+        den = 1
+        for x in vals_:
+            den = max(den, Fraction(float(x)).denominator)
+        sc = (lambda d: (lambda x: int(Fraction(float(x)) * d)))(den)
+        zops = ["ZSet %s" % vlib.cz(sc(op[1])) if op[0] == "set"
+                else "ZMc %s %s" % (vlib.cz(sc(mt)), vlib.cz(sc(o)))
+                for op, o, mt in zip(case["ops"], oracle, mts)]
+        exprs.append("z_trace z_new %s" % clist(zops))
+        cases.append(case)
+        runs.append((views, bad))
+        scs.append(sc)
+    try:
+        vals = vlib.coq_eval_values("cases_C16_zv", c11.ZV_HEADER, exprs, chunk=100)
+    except RuntimeError as e:
+        ctx.violation("corr:C16:zvode-model-eval", "coqc", "zvode window model evaluation failed",
+                      {"log": str(e)[-2000:]}, found_input=False)
+        return
+    for c, (views, bad), sc, v in zip(cases, runs, scs, vals):
+        model = [(x[0], x[1], x[2][0], x[2][1], x[2][2], x[2][3]) for x in vlib.parse_coq_value(v)]
+        im = [(a, sc(b), d, sc(e), sc(f), sc(g)) for a, b, d, e, f, g in views]
+        ctx.count_case(("zvode-search", json.dumps(c)), nontrivial=len(c["ops"]) >= 4)
+        ctx.cov["traces_validated_against_impl"] += 1
+        if bad:
+            ctx.violation("integrator.mcstep:" + c["method"], bad[0].split(":")[0], bad[0],
+                          {"kind": "zvode-search", "case": c})
+        # the contract itself on the real integrator: a request inside the
+        # window is answered at exactly that time, without error
+        for op, vw, prev in zip(c["ops"][1:], views[1:], views[:-1]):
+            if op[0] == "mc" and prev[2] and prev[3] <= op[1] <= prev[4] and (vw[0] or vw[1] != op[1]):
+                if abs(vw[1] - op[1]) > 256 * np.spacing(abs(op[1])) or vw[0]:
+                    ctx.violation("integrator.mcstep:" + c["method"], "window-request-not-exact",
+                                  "mcstep(%r) inside the window [%r, %r] returned %r (raised=%r)"
+                                  % (op[1], prev[3], prev[4], vw[1], vw[0]),
+                                  {"kind": "zvode-search", "case": c})
+                    break
+        if im != model:
+            ctx.violation("corr:scipy_integrator.IntegratorScipyAdams", "model-differs",
+                          "IntegratorScipyAdams/BDF and the window model disagree on a search-pattern history",
+                          {"kind": "zvode-search", "case": c}, found_input=bool(bad))
+    ctx.sample({"zvode_search_case": cases[-1]})
